@@ -156,6 +156,14 @@ Lemma own_deleted_app t pk log w :
   if i3_eqb (w_tid w) t && (w_pk w =? pk)%Z then is_del (w_kind w) else own_deleted t pk log.
 Proof. unfold own_deleted. rewrite fold_left_app. reflexivity. Qed.
 
+Lemma own_deleted_not_written t pk log :
+  own_written t pk log = false -> own_deleted t pk log = false.
+Proof.
+  induction log as [|w r IH] using rev_ind; [reflexivity|].
+  rewrite own_written_app, own_deleted_app. intros H.
+  apply orb_false_elim in H as [H1 H2]. rewrite H2. apply IH. exact H1.
+Qed.
+
 Lemma afind_view rows log t pk :
   afind pk (view rows log t) =
   if own_written t pk log
